@@ -586,7 +586,9 @@ class ProgGen(object):
             p = r.choice(params)
         else:
             cmd = r.choice(["ExcludeRegion", "Other", "excluderegion", "pause"])
-            p = r.choice(["", "foo", "offline", "onwards", "enabled", "x off"])
+            p = r.choice(["", "foo", "offline", "onwards", "enabled", "x off", "OFF", "On", "DISABLE", "Enable"])   # patterns are case-sensitive
+            if r.random() < 0.5 and table:
+                cmd = table[r.randrange(len(table))][0]
         self.steps.append(["at", cmd, p])
         # belief only (steers G28 placement); the oracle does its own matching
         import re
